@@ -14,7 +14,7 @@ RULE = ('case = peptide model of length 1..12 (residue, terminal, static, isotop
         'precision x return type; non-trivial = length >= 3, at least one modification and (>= 2 ion types or a loss or an isotope > 0)')
 ASSUMPTIONS = [
     'custom loss patterns are single residues or character classes, so the number of hits is a residue count',
-    'with a precision p the fragmenter rounds the mass before dividing: m/z may differ from round(mass/charge, p) by one unit of 10^-p',
+    'with a precision p a reported mass or m/z lies within half a unit of 10^-p of the unrounded value of the mass calculator (rounding the mass first and dividing afterwards, as the fragmenter did before fix, is up to 0.75 units off and is reported)',
 ]
 
 TERMINAL_F, TERMINAL_B = ['a', 'b', 'c'], ['x', 'y', 'z']
@@ -170,7 +170,7 @@ def check_case(case) -> Result:
             bad = ('mass', f.mass, m)
         elif abs(f.neutral_mass - m0) > 1e-6 + slack:
             bad = ('neutral_mass', f.neutral_mass, m0)
-        elif abs(f.mz - m / f.charge) > 1e-6 + slack + (unit * 1.0 + unit / 2 if prec is not None else 0):
+        elif abs(f.mz - m / f.charge) > 1e-6 + slack + (unit / 2 if prec is not None else 0):
             bad = ('mz', f.mz, m / f.charge)
         elif prec is not None and (round(f.mass, prec) != f.mass or round(f.mz, prec) != f.mz):
             bad = ('precision', f.mass, f.mz)
